@@ -197,10 +197,35 @@ static void cx_call_all(const secp256k1_context *c, jout *out, int full) {
       r = r && secp256k1_musig_partial_sig_agg(c, sig, &ses, psp, 2);
       r = r && secp256k1_schnorrsig_verify(c, sig, CX_MSG, 32, &agg);
       f.ret = r; cx_add(&f, sig, 64); cx_end(&f, out, "f_musig_session"); }
+    /* the life cycle of a PRIVATE context (create, randomize, replace and restore the compression function, clone, destroy): it is a
+     * family so that the write-footprint probe sees whether any of these calls touches library globals */
+    FAM { secp256k1_context *a, *b2; unsigned char seed[32]; int r = 1;
+      cx_begin(&f); memset(seed, 0x77, 32);
+      a = secp256k1_context_create(SECP256K1_CONTEXT_NONE); r = r && a != NULL;
+      if (a) { cx_set_callbacks(a); r = r && secp256k1_context_randomize(a, seed);
+               secp256k1_context_set_sha256_compression(a, cx_sha_fn); secp256k1_context_set_sha256_compression(a, NULL);
+               b2 = secp256k1_context_clone(a); r = r && b2 != NULL; if (b2) secp256k1_context_destroy(b2); secp256k1_context_destroy(a); }
+      f.ret = r; cx_end(&f, out, "f_private_lifecycle"); }
+}
+/* a replaced compression function belongs to ONE context: install the counting function on a private context and hash through
+ * the static context and through the exported (context-free) nonce function -- none of these calls may reach it */
+static long cx_sha_foreign(void) {
+    secp256k1_context *a = secp256k1_context_create(SECP256K1_CONTEXT_NONE); unsigned long c0; unsigned char b[32], n32[32]; long r;
+    cx_set_callbacks(a); secp256k1_context_set_sha256_compression(a, cx_sha_fn); c0 = CX_SHA_CALLS;
+    (void)secp256k1_tagged_sha256(secp256k1_context_static, b, (const unsigned char*)"tag", 3, CX_MSG, 32);
+    (void)secp256k1_nonce_function_rfc6979(n32, CX_MSG, CX_SK, NULL, NULL, 0);
+    (void)secp256k1_nonce_function_default(n32, CX_MSG, CX_SK, NULL, NULL, 1);
+    r = (long)(CX_SHA_CALLS - c0);
+    secp256k1_context_set_sha256_compression(a, NULL);
+    secp256k1_context_destroy(a);
+    /* ... and after the private context is gone */
+    c0 = CX_SHA_CALLS; (void)secp256k1_tagged_sha256(secp256k1_context_static, b, (const unsigned char*)"tag", 3, CX_MSG, 32); r += (long)(CX_SHA_CALLS - c0);
+    return r;
 }
 static void op_CtxCallAll(const jv *in, jout *out) {
     int s = (int)jv_int(in, "s", 0);
     cx_call_all(CX[s].ctx, out, (int)jv_int(in, "full", 1)); jo_int(out, "ret", 1);
+    jo_int(out, "sha_foreign", cx_sha_foreign());
 }
 /* static context and a byte copy of it */
 static void op_CtxCallStatic(const jv *in, jout *out) {
